@@ -635,4 +635,46 @@ def hidden (inp : RunInput) : Ev → Bool
 /-- the observable trace, oldest first -/
 def trace (inp : RunInput) (s : Sys) : List Ev := (s.events.filter (fun e => !hidden inp e)).reverse
 
+/-! ### a default schedule (for examples and `simulate`): main thread first, then the lowest worker; sets are
+    iterated in their stored order -/
+
+/-- the stored order of the set the main thread's next step iterates -/
+def defaultPerm (s : Sys) : List Name :=
+  match s.rpc with
+  | .sTop (some p) | .gLoop (some p) _ =>
+    (match s.nodes p with
+     | some nd => if nd.status = .run then [] else nd.waitingMe
+     | none => [])
+  | .sWait | .gWait _ =>
+    (match s.susp, s.cur with
+     | none, some n =>
+       (match s.nodes n with
+        | some nd => if nd.pc = .loopTop then nd.pendCalc else []
+        | none => [])
+     | _, _ => [])
+  | _ => []
+
+/-- the first enabled move `mk w` over the started workers (`rev`: highest index first) -/
+def firstMove (inp : RunInput) (s : Sys) (rev : Bool) (mk : Nat → Choice) : Nat → Option (Choice × Sys)
+  | 0 => none
+  | k + 1 =>
+    match pstep inp s (mk (if rev then k else s.nStarted - 1 - k)) with
+    | some s' => some (mk (if rev then k else s.nStarted - 1 - k), s')
+    | none => firstMove inp s rev mk k
+
+/-- job pick-ups before completions, so that several workers get busy -/
+def firstWorkerMove (inp : RunInput) (s : Sys) (rev : Bool) : Option (Choice × Sys) :=
+  (firstMove inp s rev Choice.take s.nStarted).orElse fun _ => firstMove inp s rev Choice.done s.nStarted
+
+/-- run until nothing is enabled (or the fuel ends); `workersFirst`: prefer worker moves over the main thread;
+    `rev`: highest worker index first.  Returns the final state and the choices taken. -/
+def autoRun (inp : RunInput) (workersFirst rev : Bool) : Nat → Sys → Sys × List Choice
+  | 0, s => (s, [])
+  | fuel + 1, s =>
+    let mainMove := (stepOf inp s (.main (defaultPerm s))).map fun s' => (Choice.main (defaultPerm s), s')
+    let workerMove := if inp.runner = .serial then none else firstWorkerMove inp s rev
+    match (if workersFirst then workerMove.orElse fun _ => mainMove else mainMove.orElse fun _ => workerMove) with
+    | some (c, s') => let (r, cs) := autoRun inp workersFirst rev fuel s'; (r, c :: cs)
+    | none => (s, [])
+
 end DoitModel.Run
